@@ -31,7 +31,7 @@ func init() {
 		Workloads: []core.Workload{
 			{Name: "race", Variant: "race", N: core.Tiered(41*3*2, 41*3*50), Run: c05Race, Env: []string{"GORACE=halt_on_error=1 exitcode=66"}},
 			{Name: "sched", Variant: "plain", N: core.Tiered(41*2, 41*60), Run: c05Sched},
-			{Name: "owsim-race", Variant: "plain", N: core.Tiered(12, 150), Run: c05OwsimRace, TimeoutS: 300, MaxProcs: 8},
+			{Name: "owsim-race", Variant: "plain", N: core.Tiered(32, 300), Run: c05OwsimRace, TimeoutS: 300, MaxProcs: 12},
 		},
 		RequireTags: func(string) []string { return []string{"sched:orders>=3", "race:N32"} },
 	})
@@ -52,7 +52,7 @@ func c05Race(c *core.Ctx) {
 	T := c.R.IntRange(1, 12)
 	wc := 0
 	if needsWidthClass(model) {
-		wc = 1 + c.R.Intn(13)
+		wc = widthClassFor(c.R, N)
 	}
 	procs := []int{2, 4, 16}[c.R.Intn(3)]
 	run := GenRun(model, c.R, N, P, B, T, wc)
@@ -173,7 +173,7 @@ func c05Sched(c *core.Ctx) {
 	T := c.R.IntRange(1, 10)
 	wc := 0
 	if needsWidthClass(model) {
-		wc = 1 + c.R.Intn(13)
+		wc = widthClassFor(c.R, N)
 	}
 	run := GenRun(model, c.R, N, P, B, T, wc)
 	c.Begin(map[string]interface{}{"model": model, "cells": N, "param_sets": P, "input_blocks": B, "timesteps": T, "run": run})
